@@ -19,15 +19,16 @@ theorem reachable_inv (size : Params → Nat) (s : Sys) (h : Reachable size s) :
   obtain ⟨cfg, ops, ho, e⟩ := h
   rw [e]; exact run_inv size ops _ (init_inv cfg) ho
 
-/-- **after any history (crashes, lost database, restarts included) the next certificate the node builds has the
-    correct height, previous exit root and first block** — the ones the Agglayer's records require -/
+/-- **after any history (crashes, lost database, restarts included) the next certificate the node builds — with the PP flow
+    or the aggchain-prover flow — has the correct height, previous exit root and first block**: the ones the Agglayer's
+    records require -/
 theorem C13_next_certificate_correct (size : Params → Nat) (s : Sys) (h : Reachable size s) (hup : s.up = true)
-    (c : ACert) (retry tb : Nat) (hb : build size s.cfg s.l2 s.loc = .cert c retry tb) :
+    (c : ACert) (retry tb : Nat) (hb : (buildAny size s).1 = .cert c retry tb) :
     (c.height, c.prev, c.from_) = expect s.cfg s.agg ∧
     (∀ x, s.agg.getLast? = some x → x.status.isOpen = false) := by
   have hi := reachable_inv size s h
   have hs := hi.syncUp hup
-  obtain ⟨b1, _, _, _, _, _, _, _, b9⟩ := build_spec size s.cfg s.l2 hi.l2wf s.loc s.agg hs (inv_lastOK s hi) (inv_fallback s hi) c retry tb hb
+  obtain ⟨b1, _, _, _, _, _, _, _, b9⟩ := buildAny_spec size s hi hup c retry tb hb
   refine ⟨b1, ?_⟩
   intro x hx
   unfold SyncUp at hs
